@@ -997,10 +997,14 @@ def judge_query(case):
                 rollback()
     with db_session:
         try:
-            for row in rows_in:
-                E(**row)
-            if rows_in:
-                flush()
+            try:
+                for row in rows_in:
+                    E(**row)
+                if rows_in:
+                    flush()
+            except Exception as e:
+                return 'ok', [('crash', '%s: storing the rows %s through Pony raised %s(%s)'
+                               % (dialect, _short(rows_in, 400), type(e).__name__, _short(str(e), 200)))], info
             try:
                 sql, args, got_rows = run_query(w, case, live)
             except (TranslationError, TypeError, NotImplementedError) as e:
